@@ -14,7 +14,7 @@ import (
 	vs "github.com/emitter-io/emitter/internal/verifspec"
 )
 
-//@ assume strings.Split iface post=post_strings_Split
+// @ assume strings.Split iface post=post_strings_Split
 func post_strings_Split(res0 []string) bool { return len(res0) >= 1 }
 
 //@ assume (Surveyee).OnSurvey iface
@@ -22,14 +22,14 @@ func post_strings_Split(res0 []string) bool { return len(res0) >= 1 }
 //@ assume (gossiper).ID iface
 //@ assume github.com/emitter-io/emitter/internal/message.New iface
 
-//@ verify (*Surveyor).onRequest pre=pre_Surveyor props=C09
-//@ loop (*Surveyor).onRequest 0 unroll 2 bounded
+// @ verify (*Surveyor).onRequest pre=pre_Surveyor props=C09
+// @ loop (*Surveyor).onRequest 0 unroll 2 bounded
 func pre_Surveyor(c *Surveyor) bool { // (registered handlers are non-nil: HandleFunc is only called with services)
 	return c != nil && c.gossip != nil && vs.Forall(0, len(c.handlers), func(j int) bool { return c.handlers[j] != nil })
 }
 
-//@ assume (github.com/emitter-io/emitter/internal/message.ID).Ssid iface
-//@ assume (*Surveyor).onRequest iface for=Send
-//@ assume (*Surveyor).onResponse iface for=Send
-//@ verify (*Surveyor).Send pre=pre_Surveyor_Send props=C09
+// @ assume (github.com/emitter-io/emitter/internal/message.ID).Ssid iface
+// @ assume (*Surveyor).onRequest iface for=Send
+// @ assume (*Surveyor).onResponse iface for=Send
+// @ verify (*Surveyor).Send pre=pre_Surveyor_Send props=C09
 func pre_Surveyor_Send(c *Surveyor, m *message.Message) bool { return pre_Surveyor(c) && m != nil }
